@@ -91,6 +91,10 @@ func init() {
 			"Permutation testing is replaced by the order-independence argument (O5) plus last-writer-wins by range order (O4).",
 		Assumptions: []string{"option constructors are the exported functions returning util.Option", "specification tables in checker/rule_c19.go encode 'the setting it names'"},
 		Mutants: []Mutant{
+			{ID: "C19-resolve-before-assertion", Desc: "WithSSHConfigFile resolves the path before looking at the object", Rule: "C19/ignored-first",
+				Edits: []Edit{{File: "driver/options/transportssh.go", Old: "func WithSSHConfigFile(s string) util.Option {\n\treturn func(o interface{}) error {\n\t\ta, ok := o.(*transport.SSHArgs)\n\n\t\tif !ok {\n\t\t\treturn util.ErrIgnoredOption\n\t\t}\n\n\t\tsshF, err := util.ResolveFilePath(s)\n\t\tif err != nil {\n\t\t\treturn util.ErrFileNotFoundError\n\t\t}\n", New: "func WithSSHConfigFile(s string) util.Option {\n\treturn func(o interface{}) error {\n\t\tsshF, err := util.ResolveFilePath(s)\n\t\tif err != nil {\n\t\t\treturn util.ErrFileNotFoundError\n\t\t}\n\n\t\ta, ok := o.(*transport.SSHArgs)\n\n\t\tif !ok {\n\t\t\treturn util.ErrIgnoredOption\n\t\t}\n"}}},
+			{ID: "C19-platform-rewraps-option-error", Desc: "the platform constructor prints the driver constructor's error instead of wrapping it", Rule: "C19/constructors-relay",
+				Edits: []Edit{{File: "platform/definition.go", Old: "\t\td, err = generic.NewDriver(host, finalOpts...)\n\t\tif err != nil {\n\t\t\treturn err\n\t\t}", New: "\t\td, err = generic.NewDriver(host, finalOpts...)\n\t\tif err != nil {\n\t\t\treturn fmt.Errorf(\"%w: failed creating generic driver: %s\", util.ErrPlatformError, err)\n\t\t}"}}},
 			{ID: "C19-shared-ssh-args", Desc: "NewSSHArgs hands out one package-level SSHArgs", Rule: "C19/fresh-objects",
 				Edits: []Edit{{File: "transport/transport.go", Old: "\ta := &SSHArgs{\n\t\tStrictKey: defaultSSHStrictKey,\n\t}\n", New: "\ta := &sharedSSHArgs\n"}, {File: "transport/transport.go", Old: "// NewSSHArgs returns an instance of SSH arguments", New: "var sharedSSHArgs = SSHArgs{StrictKey: defaultSSHStrictKey} //nolint:gochecknoglobals\n\n// NewSSHArgs returns an instance of SSH arguments"}}},
 			{ID: "C19-transport-type-checked-lowercase", Desc: "WithTransportType validates the lower-cased name but stores the original", Rule: "C19/validated-is-stored",
@@ -380,6 +384,23 @@ func (c *Ctx) applyTargetsBound(fn *ssa.Function, list ssa.Value, r *Report, vis
 // rangeHeader returns the loop header block if idx is the induction value of a
 // go/ssa range-over-slice loop (phi(-1, next); next = phi + 1), else nil.
 func rangeHeader(idx ssa.Value) *ssa.BasicBlock {
+	// the counted spelling of the same loop: for i := 0; i < len(s); i++ { ... s[i] ... }
+	if phi, ok := idx.(*ssa.Phi); ok && isCountingPhi(phi) {
+		if k, ok := constInt(phi.Edges[0]); ok && k != 0 {
+			return nil
+		}
+		if k, ok := constInt(phi.Edges[1]); ok && k != 0 {
+			return nil
+		}
+		if cmp, ok := ifCond(phi.Block()).(*ssa.BinOp); ok && cmp.Op == token.LSS && cmp.X == ssa.Value(phi) {
+			if call, ok := cmp.Y.(*ssa.Call); ok {
+				if bi, ok := call.Call.Value.(*ssa.Builtin); ok && bi.Name() == "len" {
+					return phi.Block()
+				}
+			}
+		}
+		return nil
+	}
 	b, ok := idx.(*ssa.BinOp)
 	if !ok || b.Op != token.ADD {
 		return nil
